@@ -3,7 +3,7 @@
    and Proofs/PolicyPre.v. *)
 From Coq Require Import List NArith ZArith Bool.
 From RB Require Import Base.Val Model.Policy Model.PolicyTable Model.PolicyPre Spec.PolicySpec
-  Model.PolicyGlobal Proofs.Policy Proofs.PolicyTable Proofs.PolicyPre Proofs.PolicyWire Proofs.PolicyWf Proofs.PolicyGlobal Proofs.PolicyContent Proofs.PolicyGlobalWf.
+  Model.PolicyGlobal Proofs.Policy Proofs.PolicyTable Proofs.PolicyPre Proofs.PolicyWire Proofs.PolicyWf Proofs.PolicyGlobal Proofs.PolicyContent Proofs.PolicyGlobalWf Proofs.PolicyFlag.
 Import ListNotations.
 Open Scope N_scope.
 
@@ -231,6 +231,43 @@ Proof. exact C14_peer_effective_export_wf. Qed.
 Check peer_effective_export_wf :
   forall l peer a, effective_export (grun_history empty_global l) peer = Some a -> wf_assignment a.
 Print Assumptions peer_effective_export_wf.
+
+(* 10f. the cached needs_rpki flag of every assignment in force -- the two global
+        slots, and the export policy every peer evaluates -- equals "some statement
+        of some of its policies has an rpki condition", after any history of table
+        calls and of Global-level calls (however the assignment was accumulated) *)
+Theorem needs_rpki_cached_correctly :
+  (forall l a, let t := run_history empty_table l in
+               (t_imp t = Some a \/ t_exp t = Some a) -> as_needs_rpki a = compute_needs_rpki (as_pols a)) /\
+  (forall l peer a, let g := grun_history empty_global l in
+               (effective_export g peer = Some a \/ t_imp (g_table g) = Some a) ->
+               as_needs_rpki a = compute_needs_rpki (as_pols a)).
+Proof. exact C14_needs_rpki_cached_correctly. Qed.
+Check needs_rpki_cached_correctly :
+  (forall l a, let t := run_history empty_table l in
+               (t_imp t = Some a \/ t_exp t = Some a) -> as_needs_rpki a = compute_needs_rpki (as_pols a)) /\
+  (forall l peer a, let g := grun_history empty_global l in
+               (effective_export g peer = Some a \/ t_imp (g_table g) = Some a) ->
+               as_needs_rpki a = compute_needs_rpki (as_pols a)).
+Print Assumptions needs_rpki_cached_correctly.
+
+(* 10g. hence the daemon's gate (the RPKI table is handed to evaluation only when
+        the flag is set) never changes a result: the verdict does not depend on
+        the history of assignment operations *)
+Theorem gated_evaluation_history_independent :
+  forall (rc re rl : N -> N -> bool) (rxa : N -> list N -> bool) (validate : nlri -> N -> option N) l peer a x r,
+    let g := grun_history empty_global l in
+    (effective_export g peer = Some a \/ t_imp (g_table g) = Some a) ->
+    eval_code rc re rl rxa (if as_needs_rpki a then Some validate else None) a x r =
+    eval_code rc re rl rxa (Some validate) a x r.
+Proof. exact C14_gated_evaluation_history_independent. Qed.
+Check gated_evaluation_history_independent :
+  forall (rc re rl : N -> N -> bool) (rxa : N -> list N -> bool) (validate : nlri -> N -> option N) l peer a x r,
+    let g := grun_history empty_global l in
+    (effective_export g peer = Some a \/ t_imp (g_table g) = Some a) ->
+    eval_code rc re rl rxa (if as_needs_rpki a then Some validate else None) a x r =
+    eval_code rc re rl rxa (Some validate) a x r.
+Print Assumptions gated_evaluation_history_independent.
 
 (* 11. the repaired findings, against the model of the code before each repair *)
 Theorem prefix_set_longest_match_refuted :
